@@ -6,6 +6,7 @@ import json, os, re, subprocess, sys, time, hashlib, shutil, tempfile
 VERIF = os.path.dirname(os.path.dirname(os.path.abspath(__file__)))
 SPEC = os.path.join(VERIF, "spec")
 HARNESS = os.path.join(VERIF, "harness")
+HARNESS_APP = os.path.join(VERIF, "harness_app")
 WORK = os.path.join(VERIF, ".work")
 REPLAYS = os.path.join(VERIF, "replays")
 EVIDENCE = os.path.join(VERIF, "evidence")
@@ -28,9 +29,11 @@ def ensure_dirs():
 # --------------------------------------------------------------------------------------
 # cargo
 # --------------------------------------------------------------------------------------
-def build_harness(bins, release=False, features=None):
-    """Build harness binaries from /repo's current working tree (path dependencies). Returns dir."""
+def build_harness(bins, release=False, features=None, crate=None):
+    """Build harness binaries from /repo's current working tree (path dependencies). Returns dir.
+    crate: harness crate directory (default /verif/harness; /verif/harness_app links the whole application)."""
     ensure_dirs()
+    HARNESS = crate or globals()["HARNESS"]
     lock = os.path.join(HARNESS, "Cargo.lock")
     if not os.path.exists(lock):
         shutil.copy("/repo/Cargo.lock", lock)
